@@ -101,7 +101,8 @@ impl DeweyVersion {
             let numstr: String =
                 slice.chars().take_while(char::is_ascii_digit).collect();
             if !numstr.is_empty() {
-                version.push(numstr.parse::<i64>().unwrap());
+                /* Digits only, so parsing can only fail on overflow. */
+                version.push(numstr.parse::<i64>().unwrap_or(i64::MAX));
                 idx += numstr.len();
                 continue;
             }
